@@ -290,6 +290,25 @@ func (db *SpecDB) LoadFile(path, pkgPath, prefix string) {
 				}
 			case "loop":
 				f := strings.Fields(rest)
+				if len(f) >= 3 && f[1] == "body-assert" {
+					n, err := strconv.Atoi(f[0])
+					if err != nil {
+						db.errf(path, rl.line, "bad loop ordinal")
+						continue
+					}
+					rest = strings.TrimSpace(strings.TrimPrefix(strings.TrimSpace(strings.TrimPrefix(rest, f[0])), "body-assert"))
+					c := mkClause("body-assert")
+					if c == nil {
+						continue
+					}
+					lc := cur.Loops[n]
+					if lc == nil {
+						lc = &LoopContract{Ordinal: n}
+						cur.Loops[n] = lc
+					}
+					lc.BodyAsserts = append(lc.BodyAsserts, c)
+					continue
+				}
 				if len(f) < 3 || f[1] != "invariant" {
 					db.errf(path, rl.line, "expected: loop N invariant expr")
 					continue
